@@ -1332,23 +1332,23 @@ class CompositeEnvelope:
         product_states = [
             p for p in self.states if any(so in p.state_objs for so in states)
         ]
-        assert len(product_states) > 0, "No product state found"
         ps: ProductState
-        if len(product_states) > 1:
+        if len(product_states) == 0 and len(states) == 1:
+            # The state is held by the state itself or by its envelope
+            return states[0].trace_out()
+        if len(product_states) != 1 or not all(
+            s in product_states[0].state_objs for s in states
+        ):
+            # Not all of the states are in the same product space yet
             all_states = [s for s in states]
             for p in product_states:
                 all_states.extend([s for s in p.state_objs])
             self.combine(*all_states)
-            product_states = [
-                p for p in self.states if any(so in p.state_objs for so in states)
-            ]
-            assert (
-                len(product_states) > 0
-            ), "Only one product state should exist at this point"
-        ps = product_states[0]
 
         self.reorder(*states)
 
+        # Combining and reordering can replace the product state
+        ps = [p for p in self.states if all(so in p.state_objs for so in states)][0]
         return ps.trace_out(*states)
 
     def resize_fock(self, new_dimensions: int, fock: "Fock") -> bool:
